@@ -66,6 +66,29 @@ def wrapper_guard_key(unit, type_text):
     return None
 
 
+def _mutex_expr(unit, e, depth=0):
+    """The expression a guard's argument denotes: a reference local (or `*p` of a const pointer local initialised with
+    `&m`) stands for what it was bound to -- neither can be re-seated."""
+    x = peel(e)
+    if x is None or depth > 3:
+        return e
+    if x.get('kind') == 'DeclRefExpr':
+        d = unit.by_id.get((x.get('referencedDecl') or {}).get('id'))
+        if d is not None and d.get('kind') == 'VarDecl' and kids(d) and (qtype(d) or '').rstrip().endswith('&') and \
+                d.get('storageClass') != 'static':
+            return _mutex_expr(unit, kids(d)[-1], depth + 1)
+    if x.get('kind') == 'UnaryOperator' and x.get('opcode') == '*':
+        y = peel(kids(x)[0])
+        if y is not None and y.get('kind') == 'DeclRefExpr':
+            d = unit.by_id.get((y.get('referencedDecl') or {}).get('id'))
+            t = (qtype(d) or '').rstrip() if d is not None else ''
+            if d is not None and d.get('kind') == 'VarDecl' and kids(d) and t.endswith('*const') or t.endswith('* const'):
+                i = peel(kids(d)[-1])
+                if i is not None and i.get('kind') == 'UnaryOperator' and i.get('opcode') == '&':
+                    return _mutex_expr(unit, kids(i)[0], depth + 1)
+    return e
+
+
 class LockRegions(object):
     def __init__(self, unit, fn):
         self.fn = fn
@@ -99,7 +122,7 @@ class LockRegions(object):
                     c = peel(ctor[0])
                     args = call_args(c) if c.get('kind') == 'CXXConstructExpr' else []
                     if len(args) >= 1:
-                        mk = self.keys.key(args[0])
+                        mk = self.keys.key(_mutex_expr(unit, args[0]))
                     if len(args) > 1:
                         # defer_lock / try_to_lock / adopt_lock variants: not a plain hold
                         self.manual.append(x)
